@@ -434,3 +434,58 @@ Proof.
   apply (nth_error_map2 (fun '(x, y) z => (x, y, z))) with (a := (px p, py p)) (b := ((top + bot) / 2)%Q); [exact Hxy|].
   apply (nth_error_map2 (fun t b => ((t + b) / 2)%Q)); assumption.
 Qed.
+
+(* ---------------- the code's matrices are rigid motions about the origin whenever cos^2 + sin^2 = 1 ---------------- *)
+Lemma rotz_cs_rigid c s u v w : (c * c + s * s == 1)%Q ->
+  let '(x, y, z) := rotz_cs c s (u, v, w) in (x * x + y * y == u * u + v * v)%Q /\ z = w.
+Proof.
+  intros H. unfold rotz_cs. split; [|reflexivity].
+  setoid_replace ((c * u - s * v) * (c * u - s * v) + (s * u + c * v) * (s * u + c * v))%Q
+    with ((c * c + s * s) * (u * u + v * v))%Q by ring.
+  rewrite H. ring.
+Qed.
+
+Lemma rotx_cs_rigid c s u v w : (c * c + s * s == 1)%Q ->
+  let '(x, y, z) := rotx_cs c s (u, v, w) in (y * y + z * z == v * v + w * w)%Q /\ x = u.
+Proof.
+  intros H. unfold rotx_cs. split; [|reflexivity].
+  setoid_replace ((c * v - s * w) * (c * v - s * w) + (s * v + c * w) * (s * v + c * w))%Q
+    with ((c * c + s * s) * (v * v + w * w))%Q by ring.
+  rewrite H. ring.
+Qed.
+
+Definition sqdist (a b : V3) : Q :=
+  let '(x, y, z) := a in let '(p, q, r) := b in ((x - p) * (x - p) + (y - q) * (y - q) + (z - r) * (z - r))%Q.
+
+(* rotated about the origin: the rotated-and-translated point is as far from the origin as the local point is from 0,
+   keeps its height, and the local point (0,0,0) goes to the origin itself *)
+Lemma rotz_about_origin c s o p : (c * c + s * s == 1)%Q ->
+  (sqdist (vadd (rotz_cs c s p) o) o == sqdist p vzero)%Q
+  /\ veq (vadd (rotz_cs c s vzero) o) o.
+Proof.
+  intros H. destruct p as [[u v] w]. destruct o as [[ox oy] oz]. unfold sqdist, vadd, rotz_cs, vzero, veq. split.
+  - setoid_replace ((c * u - s * v + ox - ox) * (c * u - s * v + ox - ox) + (s * u + c * v + oy - oy) * (s * u + c * v + oy - oy)
+                    + (w + oz - oz) * (w + oz - oz))%Q
+      with ((c * c + s * s) * (u * u + v * v) + w * w)%Q by ring.
+    rewrite H. ring.
+  - repeat split; ring.
+Qed.
+
+Lemma dip_rot_about_origin c s cd sd o p : (c * c + s * s == 1)%Q -> (cd * cd + sd * sd == 1)%Q ->
+  (sqdist (vadd (rotz_cs c s (rotx_cs cd sd p)) o) o == sqdist p vzero)%Q.
+Proof.
+  intros H Hd. destruct p as [[u v] w]. destruct o as [[ox oy] oz]. unfold sqdist, vadd, rotz_cs, rotx_cs, vzero.
+  setoid_replace ((c * u - s * (cd * v - sd * w) + ox - ox) * (c * u - s * (cd * v - sd * w) + ox - ox)
+                  + (s * u + c * (cd * v - sd * w) + oy - oy) * (s * u + c * (cd * v - sd * w) + oy - oy)
+                  + (sd * v + cd * w + oz - oz) * (sd * v + cd * w + oz - oz))%Q
+    with ((c * c + s * s) * (u * u) + (c * c + s * s) * ((cd * cd) * (v * v) + (sd * sd) * (w * w) - 2 * cd * sd * v * w)
+          + ((sd * sd) * (v * v) + (cd * cd) * (w * w) + 2 * cd * sd * v * w))%Q by ring.
+  rewrite H.
+  setoid_replace (1 * (u * u) + 1 * (cd * cd * (v * v) + sd * sd * (w * w) - 2 * cd * sd * v * w)
+                  + (sd * sd * (v * v) + cd * cd * (w * w) + 2 * cd * sd * v * w))%Q
+    with (u * u + (cd * cd + sd * sd) * (v * v) + (cd * cd + sd * sd) * (w * w))%Q by ring.
+  rewrite Hd. ring.
+Qed.
+
+Lemma veq_refl_g a : veq a a.
+Proof. destruct a as [[x y] z]. unfold veq. repeat split; reflexivity. Qed.
